@@ -67,7 +67,8 @@ class ApplyHistory(Machine):
                        "batch_middle_fails", "batch_gt_n", "batch_not_dividing", "exception_then_success",
                        "mask_checked", "apply_shape", "constrain_batched", "set_target_between_applies",
                        "out_of_domain_mix", "apply_on_copy", "integer_dtype_buffer", "non_contiguous_view_input", "pseudoinverse_of_used_transform",
-                       "parameters_updated_in_place_between_applies", "earlier_result_still_valid", "caller_edited_an_earlier_result_in_place",
+                       "parameters_updated_in_place_between_applies", "earlier_result_still_valid", "caller_edited_an_earlier_result_in_place", "current_target_edited_in_place_and_set_again",
+                       "pseudoinverse_vector_asked_between_applies", "pseudoinverse_vector_of_singular_parameters_raised",
                        "composition_result_discarded_between_applies")
 
     @classmethod
@@ -295,7 +296,14 @@ class ApplyHistory(Machine):
             return
         kind, seed, _ = e["recipe"]
         e["recipe"] = (kind, seed, op["seed"])
-        e["t"].set_target(PointCloud(self._target(op["seed"])))
+        if op["seed"] % 4 == 1:
+            # the caller moves the landmarks of the point set that already is the target and sets it again
+            tgt = e["t"].target
+            tgt.points[...] = self._target(op["seed"])
+            e["t"].set_target(tgt)
+            self.ctx.probe("current_target_edited_in_place_and_set_again")
+        else:
+            e["t"].set_target(PointCloud(self._target(op["seed"])))
         e["retargeted"] = True
 
     def _op_compose_noise(self, op):
@@ -317,6 +325,29 @@ class ApplyHistory(Machine):
             self.ctx.probe("composition_result_discarded_between_applies")
         except Exception:
             pass
+        if op["seed"] & 32 and hasattr(e["t"], "pseudoinverse_vector") and e.get("vec") is None:
+            # the optimiser's question "what would the inverse of THESE parameters be" - also for parameters that
+            # have no inverse - is a question; the transform that is asked stays what it is
+            try:
+                v = np.array(e["t"].as_vector(), dtype=float)
+                if (op["seed"] >> 6) % 2:
+                    z = np.zeros_like(v)
+                    if v.size == 6:
+                        z[0] = z[3] = -1.0
+                    elif v.size == 4:
+                        z[0] = -1.0
+                    elif v.size != 9:
+                        z = v * 1.5 + 0.25
+                    v = z
+                else:
+                    v = v * 1.25 + 0.125
+                self.ctx.probe("pseudoinverse_vector_asked_between_applies")
+                import warnings as _w
+                with _w.catch_warnings():
+                    _w.simplefilter("ignore")
+                    e["t"].pseudoinverse_vector(v)
+            except Exception:
+                self.ctx.probe("pseudoinverse_vector_of_singular_parameters_raised")
 
     def _op_update(self, op):
         """In-place parameter update (from_vector_inplace) of a long-lived, already applied transform."""
